@@ -17,10 +17,23 @@ META = {
 THEOREMS = ["C08.no_spurious_success", "C08.conservation", "C08.forever_waiter_released"]
 
 
+def deadline_lines(rng, n):
+    """TES lines: the absolute deadline a timed wait hands to the kernel, computed while time passes between clock readings"""
+    B63, M, MAXV = 2 ** 63, 2 ** 64, 2 ** 62 - 1
+    out = []
+    for _ in range(n):
+        nu, nm, nw = 10 ** 12 + rng.below(10 ** 15), 10 ** 12 + rng.below(10 ** 15), 17 * 10 ** 17 + rng.below(10 ** 15)
+        step = rng.choice([1, 50, 1000, 10 ** 6, 10 ** 8])
+        ahead = rng.choice([1, 1000, 10 ** 6, 3 * 10 ** 8, 10 ** 10]) + rng.below(1000) + 3 * step
+        if rng.below(2): out.append(("TES %d %d %d %d %d" % (nu + ahead, nu, nm, nw, step), nw, ahead, step))
+        else: out.append(("TES %d %d %d %d %d" % (B63 + nm + ahead, nu, nm, nw, step), nw, ahead, step))
+    return out
+
+
 def run(ctx):
     ctx.proof("DispatchVerif.Props.C08", THEOREMS)
     ctx.assumptions += ["the kernel semaphore is a counting semaphore; a timed kernel wait fails only after its deadline",
-                        "the wall clock is not stepped forward during a timed wait: the POSIX back end hands sem_timedwait an absolute CLOCK_REALTIME deadline, also for uptime / monotonic timeouts (a step would end the wait early; outside the property's quantifier over call histories)"]
+                        "(since F34 a preemption between the two clock readings of the deadline computation can only make a timed wait longer) the wall clock is not stepped forward during a timed wait: the POSIX back end hands sem_timedwait an absolute CLOCK_REALTIME deadline, also for uptime / monotonic timeouts (a step would end the wait early; outside the property's quantifier over call histories)"]
     h = ctx.harness("tr_sema")
     drv = ctx.driver()
     cfg = [(6, 400, 2), (8, 300, 0), (4, 600, 1), (12, 200, 0)] if not ctx.thorough else [(6, 4000, 2), (8, 3000, 0), (4, 6000, 1), (12, 2000, 0), (16, 1500, 3), (2, 6000, 0), (3, 5000, 1)]
@@ -56,6 +69,20 @@ def run(ctx):
                 ctx.broken("L-trace: dsema_value transition not explained by SemaP.step: " + b.split(": E ", 1)[1][:200])
     if not ctx.violations and not ctx.proof_broken:
         for p in paths: os.remove(p)
-    ctx.cov["rule"] = ("tr_sema: half the threads signal, half wait (polling / timed up to 300 us / both), 2-16 threads, initial values 0-3, perturbed at the semaphore's atomic sites; "
+    # "a wait returns non-zero only after its full timeout": the absolute deadline handed to the kernel semaphore is never earlier than the
+    # wall-clock reading plus what was left on the time's own clock - also when time passes between the readings of the two clocks
+    from common import run_lines
+    hl = ctx.harness("lfn")
+    dl = deadline_lines(ctx.rng.fork("deadline"), 6000 if ctx.thorough else 600)
+    real, rc, err = run_lines(hl, [d[0] for d in dl])
+    early = [(d, r) for d, r in zip(dl, real) if r.isdigit() and int(r) < d[1] + d[2]]
+    late = [(d, r) for d, r in zip(dl, real) if r.isdigit() and int(r) > d[1] + d[2] + 4 * d[3]]
+    ctx.count("L-fn deadline", len(dl), len(dl), samples=[{"line": dl[0][0]}])
+    for d, r in early[:3]:
+        ctx.violation("the deadline of a timed wait %d ns ahead is %d ns early when %d ns pass between the readings of the two clocks: `%s` -> %s" % (d[2], d[1] + d[2] - int(r), d[3], d[0], r),
+                      {"line": d[0], "real": r, "harness": "harness/lfn.c"}, signature="sema:deadline-early")
+    for d, r in late[:3]:
+        ctx.broken("L-fn: deadline later than the wall reading + time left + 4 steps: `%s` -> %s" % (d[0], r))
+    ctx.cov["rule"] = ("TES lines: deadlines under passing time; tr_sema: half the threads signal, half wait (polling / timed up to 300 us / both), 2-16 threads, initial values 0-3, perturbed at the semaphore's atomic sites; "
                        "online check of successes <= v + signals started and of timeouts; final drain count; blocked untimed waiters released by equally many signals. "
                        "distinct_nontrivial = dsema_value transitions explained by the model")
